@@ -17,7 +17,9 @@ type legacyHandler struct {
 	eventMgr event.Manager
 
 	rwMutex
-	prevResourceResponse bool
+	// prevResourceDeclined is whether the client declined its last prompt.
+	// It stays false until the client has declined a pack.
+	prevResourceDeclined bool
 	outstandingPacks     *deque.Deque[*Info]
 	pendingPack          *Info
 	appliedPack          *Info
@@ -84,42 +86,31 @@ func (h *legacyHandler) QueueResourcePack(info *Info) error {
 	return nil
 }
 
-// with comments form java code
+// tickResourcePackQueue prompts the pack at the head of the queue.
+// The caller must hold the lock.
 func (h *legacyHandler) tickResourcePackQueue() error {
-	h.Lock()
-	defer h.Unlock()
-	queued, ok := h.outstandingPacks.Front()
-	if ok {
-		// Check if the player declined a resource pack once already
-		if !h.prevResourceResponse {
-			// If that happened we can flush the queue right away.
-			// Unless its 1.17+ and forced it will come back denied anyway
-			for h.outstandingPacks.Len() > 0 {
-				queued, _ = h.outstandingPacks.Front()
-				if queued.ShouldForce && h.player.Protocol().GreaterEqual(version.Minecraft_1_17) {
-					break
-				}
-				resBundle := &ResponseBundle{
-					ID:     queued.ID,
-					Hash:   queued.Hash,
-					Status: DeclinedResponseStatus,
-				}
-				_, err := h.OnResourcePackResponse(resBundle)
-				if err != nil {
-					return err
-				}
-				queued = nil
-			}
-			if queued == nil {
-				// Exit as the queue was cleared
-				return nil
-			}
+	for {
+		queued, ok := h.outstandingPacks.Front()
+		if !ok {
+			return nil
 		}
-
-		return h.SendResourcePackRequestPacket(queued)
+		// Check if the player declined a resource pack once already.
+		// If that happened we can flush the queue right away.
+		// Unless its 1.17+ and forced it will come back denied anyway
+		if !h.prevResourceDeclined ||
+			(queued.ShouldForce && h.player.Protocol().GreaterEqual(version.Minecraft_1_17)) {
+			return h.SendResourcePackRequestPacket(queued)
+		}
+		// The declined pack is popped from the queue, the loop continues with the next one.
+		_, err := h.handleResourcePackResponse(&ResponseBundle{
+			ID:     queued.ID,
+			Hash:   queued.Hash,
+			Status: DeclinedResponseStatus,
+		}, h.shouldDisconnectForForcePack, false)
+		if err != nil {
+			return err
+		}
 	}
-
-	return nil
 }
 
 func (h *legacyHandler) OnResourcePackResponse(bundle *ResponseBundle) (bool, error) {
@@ -132,30 +123,42 @@ func (h *legacyHandler) onResourcePackResponse(
 ) (bool, error) {
 	h.Lock()
 	defer h.Unlock()
+	return h.handleResourcePackResponse(bundle, shouldDisconnectForForcePack, true)
+}
 
+// handleResourcePackResponse processes a response for the pack at the head of the queue.
+// The caller must hold the lock. If tick is true the next queued pack is prompted
+// after a final response.
+func (h *legacyHandler) handleResourcePackResponse(
+	bundle *ResponseBundle,
+	shouldDisconnectForForcePack func(e *PlayerResourcePackStatusEvent) bool,
+	tick bool,
+) (bool, error) {
 	peek := bundle.Status.Intermediate()
-	var queued *Info
+	var queued *Info // nil if the client responds without a queued pack
 	if peek {
 		queued, _ = h.outstandingPacks.Front()
 	} else {
-		queued = h.outstandingPacks.PopFront()
+		queued, _ = h.outstandingPacks.TryPopFront()
 	}
 
-	e := newPlayerResourcePackStatusEvent(h.player, bundle.Status, bundle.ID, *queued)
-	event.FireParallel(h.eventMgr, e, func(e *PlayerResourcePackStatusEvent) {
-		if shouldDisconnectForForcePack(e) {
-			h.player.Disconnect(&component.Translation{
-				Key: "multiplayer.requiredTexturePrompt.disconnect",
-			})
-		}
-	})
+	if queued != nil {
+		e := newPlayerResourcePackStatusEvent(h.player, bundle.Status, bundle.ID, *queued)
+		event.FireParallel(h.eventMgr, e, func(e *PlayerResourcePackStatusEvent) {
+			if shouldDisconnectForForcePack(e) {
+				h.player.Disconnect(&component.Translation{
+					Key: "multiplayer.requiredTexturePrompt.disconnect",
+				})
+			}
+		})
+	}
 
 	switch bundle.Status {
 	case AcceptedResponseStatus:
-		h.prevResourceResponse = true
+		h.prevResourceDeclined = false
 		h.pendingPack = queued
 	case DeclinedResponseStatus:
-		h.prevResourceResponse = false
+		h.prevResourceDeclined = true
 	case SuccessfulResponseStatus:
 		h.appliedPack = queued
 		h.pendingPack = nil
@@ -170,7 +173,7 @@ func (h *legacyHandler) onResourcePackResponse(
 	}
 
 	var err error
-	if !peek {
+	if !peek && tick {
 		err = h.tickResourcePackQueue()
 	}
 	handled, err2 := h.HandleResponseResult(queued, bundle)
